@@ -84,8 +84,8 @@ Proof.
   assert (In p (mever m) \/ (c = Ack p /\ present_all (mfs m) p)) as Hcase.
   { destruct c; auto. destruct Hin as [<-|Hin]; auto. right. split; [reflexivity|].
     simpl in Hg. destruct (finalb p0); simpl in Hg; [|discriminate].
-    destruct (present_allb (mfs m) p0) eqn:E; simpl in Hg; [|discriminate].
-    now apply present_allb_spec. }
+    destruct (settledb (mfs m) p0) eqn:E; simpl in Hg; [|discriminate].
+    now apply settledb_present. }
   destruct Hcase as [Hold|[-> Hp]].
   - apply covered_step; [assumption|]. eapply HC; eauto.
   - eapply covered_intro; [| exact Hc | left; reflexivity | exact Ha | exact Hb | simpl; exact Hp].
